@@ -19,11 +19,13 @@ def run(ctx):
     # table load on the running database done by the caller instead of the merger (before fix 90a29de)
     ctx.tlc_mc("Pipeline.tla", "Pipeline_dev_load.cfg", timeout=300, expect_violation="QueueFits", count=False)
     ctx.tlc_mc("Pipeline.tla", "Pipeline_dev_load6.cfg", timeout=300, expect_violation="IndexesAgree", count=False)
-    dbcommon.run_db(ctx, "admin", 20 if ctx.thorough() else 1, "C16a")
+    for k in range(3 if ctx.thorough() else 1):
+        dbcommon.run_db(ctx, "admin", 20 if ctx.thorough() else 1, "C16a" + "x" * k)
     dbcommon.run_db(ctx, "tran", 30 if ctx.thorough() else 2, "C16c")
     dbcommon.run_db(ctx, "tranpairs", 30 if ctx.thorough() else 2, "C16p")
     # nothing committed may be lost by persist: what was visible before a clean close is what a
     # reopen shows (real files, transactions spanning persists, index builds over unpersisted rows)
     import durcommon
-    durcommon.run_file(ctx, "reopen", 20 if ctx.thorough() else 4, 0, "C16r")
+    for k in range(3 if ctx.thorough() else 1):
+        durcommon.run_file(ctx, "reopen", 20 if ctx.thorough() else 4, 0, "C16r" + "x" * k)
     ctx.assumptions += dbcommon.ASSUME
